@@ -45,7 +45,8 @@ def worldOf (j : Json) : Except String World := do
         | .ok => pure none)
     | _ => pure [])
   let report ← j.getObjValAs? Bool "report"
-  pure { validate := fun _ => valid, env := envTree (← varsOf j "env"), dotenv := envTree (← varsOf j "dotenv"), front := front,
+  let dump ← (match j.getObjVal? "ast_dump" with | .ok d => raisedOf d | .error _ => pure .ok)
+  pure { astDump := dump, validate := fun _ => valid, env := envTree (← varsOf j "env"), dotenv := envTree (← varsOf j "dotenv"), front := front,
          kinds := kinds, genFail := fun t => (gfl.find? (fun p => p.1 == t)).map (·.2), reportConfigured := report }
 
 def commandOf (j : Json) : Except String Sys.Command := do
@@ -58,7 +59,8 @@ def commandOf (j : Json) : Except String Sys.Command := do
 
 def invOf (req : Json) : Except String Invocation := do
   pure { topOk := ← req.getObjValAs? Bool "top_ok", options := ← req.getObjValAs? (List String) "options",
-         config := ← req.getObjVal? "config" >>= fileOf, command := ← req.getObjVal? "command" >>= commandOf }
+         config := ← req.getObjVal? "config" >>= fileOf, command := ← req.getObjVal? "command" >>= commandOf,
+         debug := (req.getObjValAs? Bool "debug").toOption.getD false }
 
 def optRaisedJ : Option Raised → Json
   | some r => raisedJ r
